@@ -22,6 +22,7 @@ pub fn run_line(line: &str) -> String {
         "re" => crate::re::run_re(&mut t),
         "relaw" => crate::re::run_relaw(&mut t),
         "ord" => crate::laws::run_ord(&mut t),
+        "script" => crate::script::run_script(&mut t),
         "tmrange" => crate::timerange::run_tmrange(&mut t),
         "mathlaw" => crate::laws::run_mathlaw(&mut t),
         "poslaw" => crate::laws::run_poslaw(&mut t),
